@@ -60,16 +60,21 @@ fn parse_layout(s: &str) -> BTreeMap<Cow<'static, str>, Nodes> {
     m
 }
 
-/// `id:addr,id:addr` or `-` (the data centre of a member is irrelevant for the deltas; dc-0 is used)
+/// `id:addr[@dc],id:addr[@dc]` or `-` (the data centre of a member is irrelevant for the deltas, it matters for the selector the
+/// watcher feeds; dc-0 when not given)
 fn parse_snapshot(s: &str) -> NodeMembership {
     let mut m = NodeMembership::new();
     if s == "-" {
         return m;
     }
     for part in s.split(',') {
+        let (part, dc) = match part.split_once('@') {
+            Some((p, d)) => (p, p_u64(d)),
+            None => (part, 0),
+        };
         let (id, a) = part.split_once(':').expect("member");
         let id = p_u64(id) as u8;
-        m.insert(id, ClusterMember::new(id, addr(p_u64(a)), "dc-0".to_string()));
+        m.insert(id, ClusterMember::new(id, addr(p_u64(a)), dc_name(dc)));
     }
     m
 }
@@ -149,7 +154,13 @@ impl Domain for NodeDomain {
                 let self_id = p_u64(t[1]) as u8;
                 let (mtx, mrx) = watch::channel(NodeMembership::new());
                 let (ctx, crx) = watch::channel(NodeMembership::new());
-                let sel = runtime().block_on(verif::start_node_selector(addr(0), Cow::Borrowed("dc-0"), DCAwareSelector::default()));
+                // mem-init <self id> [<self addr> <self dc>]: the selector the watcher feeds is the one `sel-get` asks (C15/C06: the
+                // wiring membership -> selector); the local node is at address 100 in dc-0 unless said otherwise
+                let local = addr(t.get(2).map(|x| p_u64(x)).unwrap_or(100));
+                let local_dc = dc_name(t.get(3).map(|x| p_u64(x)).unwrap_or(0));
+                let sel = runtime().block_on(verif::start_node_selector(local, Cow::Owned(local_dc), DCAwareSelector::default()));
+                self.selector = Some(sel.clone());
+                verif::take_chosen_dcs();
                 let mut probe = crx.clone();
                 runtime().spawn(verif::run_membership_watcher(self_id, sel, WatchStream::new(mrx), ctx));
                 // the watcher first processes the initial (empty) snapshot
